@@ -267,6 +267,53 @@ def resolve_shallow(st, t):
     return t
 
 
+def term_size(t, limit=60):
+    n, stack, seen = 0, [t], set()
+    while stack and n <= limit:
+        x = stack.pop()
+        if x.get_id() in seen:
+            continue
+        seen.add(x.get_id())
+        n += 1
+        if z3.is_app(x):
+            stack.extend(x.children())
+    return n
+
+
+LETBIND = True
+
+
+def letbind_scalar(I, st, v, name):
+    """`name = <large real expression>`: name the value by a fresh constant (definitional equation in the path condition)"""
+    if isinstance(v, Num) and v.kind == "real" and not z3.is_const(v.t) and term_size(v.t, 40) > 14:
+        c = z3.Real(fresh_name(name))
+        st.pc.append(c == v.t)
+        return Num(c, "real")
+    return v
+
+
+def letbind(I, st, v, name):
+    """`name = <array expression>`: give a large element-wise expression a name (array constant + defining axiom), so that
+    later conditions mention name[i] instead of repeating the whole expression.  Purely definitional."""
+    if not isinstance(v, Ref) or not LETBIND:
+        return
+    o = st.heap.get(v.id)
+    if not isinstance(o, SeqVal) or o.kind != "ndarray" or o.dtype != "real" or getattr(o, "arr", None) is not None \
+            or o.nanmask is not None or o.items is not None:
+        return
+    try:
+        probe = o.elem(z3.Int("k!probe"))
+    except EngineError:
+        return
+    if not isinstance(probe, Num) or term_size(probe.t) < 25:
+        return
+    rs = rseq(I, st, v)
+    A = array_term(I, st, rs)
+    n = SeqVal(o.kind, o.dtype, o.length, arr_elem(A, "real"), is_nd=o.is_nd, is_f64=o.is_f64)
+    n.arr = A
+    st.heap[v.id] = n
+
+
 def norm_index(i, length):
     """NumPy/Python index normalisation: negative wraps once"""
     c = conc_int(i)
@@ -787,7 +834,7 @@ def power(I, st, a, b, node):
             for _ in range(c):
                 t = t * base
             return t
-    return POW(to_real(a), to_real(b))
+    return POW(z3.simplify(to_real(a)), z3.simplify(to_real(b)))     # canonical argument form: equal bases give the same atom
 
 
 def pow_needs_domain(a, b):
